@@ -57,6 +57,10 @@ def gen_set(rng, nsamples=None, ncontigs=None, clen=None, div=None, shape=None):
             p = rng.randrange(L); q = rng.randrange(L)
             seg = s[p:p + rng.randint(20, 200)]
             s = s[:q] + seg + s[q:]
+        if rng.random() < 0.3:                          # N-runs in the COMMON ancestor: reference and samples share
+            for _ in range(rng.randint(1, 3)):          # them, with variants close by (a seeded LZ change that let a
+                q = rng.randrange(len(s))               # match extend backwards through a shared N-run needed this)
+                s = s[:q] + "N" * rng.choice([4, 5, 8, 12, 40]) + s[q:]
         base.append(s)
     samples = []
     for si in range(nsamples):
